@@ -288,6 +288,8 @@ pub struct Cfg {
     pub cross_act: bool,
     /// probe handlers may synchronously trigger an event of another (not currently sending) upstream
     pub nested_events: bool,
+    /// C15 only: the sink may keep pulling after (and from inside the handler of) the completion
+    pub pull_after_end: bool,
     /// puppet may fail (emit Error)
     pub puppet_err: bool,
     /// spawn failure alternatives offered by the mock nursery
@@ -318,6 +320,7 @@ impl Default for Cfg {
             cross_dispose: false,
             cross_act: false,
             nested_events: false,
+            pull_after_end: false,
             puppet_err: true,
             spawn_fail: false,
             no_nested_emit: false,
